@@ -33,3 +33,43 @@ def replay(args, outdir):
     if clause is None:
         return dict(reproduced=False)
     return dict(reproduced=True, signature='L3_assign_binned:%s' % clause, what='assignReads binned: %s for %r' % (clause, a))
+
+
+def replay_two_files(args, outdir):
+    """real BAM files through the real create_count_table entry point"""
+    import os, shutil, tempfile, argparse, pysam
+    import singlecellmultiomics.bamProcessing.bamToCountTable as CT
+    a = args['cex']
+    d = tempfile.mkdtemp(prefix='c10f', dir=os.environ.get('VERIF_SCRATCH') or None)
+    try:
+        paths = {}
+        for name, L, p, cell in (('a', a['LA'], a['pa'], 'cellA'), ('b', a['LB'], a['pb'], 'cellB')):
+            path = os.path.join(d, name + '.bam')
+            with pysam.AlignmentFile(path, 'wb', header={'HD': {'VN': '1.6', 'SO': 'coordinate'}, 'SQ': [{'SN': 'chr1', 'LN': max(L, 1)}]}) as o:
+                r = pysam.AlignedSegment(o.header)
+                r.query_name, r.reference_id, r.reference_start = 'q', 0, min(p, max(L - 1, 0))
+                r.query_sequence, r.query_qualities, r.cigarstring, r.mapping_quality = 'A', [30], '1M', 60
+                r.set_tag('SM', cell); r.set_tag('DS', p)
+                o.write(r)
+            pysam.index(path)
+            paths[name] = path
+        order = ['a', 'b'] if a['order'] else ['b', 'a']
+        ns = S.make_args(a['b'], a['s'], False, 0, alignmentfiles=[paths[x] for x in order], contig=None, head=None, o=None, showtags=False,
+                         featureTags=None, joinedFeatureTags='DS', sampleTags='SM', blacklist=None, noNames=True, bulk=False)
+        import io, contextlib
+        with contextlib.redirect_stdout(io.StringIO()):
+            df = CT.create_count_table(ns, return_df=True)
+        clause = None
+        table = {}
+        for col, rows in df.to_dict().items():
+            cell = col if isinstance(col, str) else col[0]
+            table[cell] = {tuple(int(x) for x in k): v for k, v in rows.items() if v == v and v != 0}
+        for cell, p, L in (('cellA', a['pa'], a['LA']), ('cellB', a['pb'], a['LB'])):
+            exp = {w: 1 for w in S.windows(p, a['b'], a['s']) if w[0] >= 0 and w[1] <= L}
+            if table.get(cell, {}) != exp:
+                clause = 'wrong_contig_length_used'
+    finally:
+        shutil.rmtree(d, ignore_errors=True)
+    if clause is None:
+        return dict(reproduced=False)
+    return dict(reproduced=True, signature='L4_two_files_contig_lengths:%s' % clause, what='%s for %r' % (clause, a))
